@@ -7,6 +7,9 @@ TRUSTED_BASE = [
     "correspondence check = differential testing of the hand-written Lean model (interpreted at Float/Float32) against kira built from /repo: "
     "harness/src (Rust), check (Python), Lean compiler/runtime Float ops assumed IEEE-754 and libm-identical to Rust's",
     "third-party crates (atomic-arena, rtrb, triple_buffer, glam, symphonia) are modelled or exercised, not verified",
+    "generated layer: tools/gen_lean.py + tools/rs2lean.py (Rust-subset -> Lean translator: parser, printer, the KOps conventions of "
+    "notes/translator.md) regenerate Gen.lean/GenFn.lean from the source on every run; the translated bodies are what the twin runs, "
+    "and Proofs/GenAgree*.lean pin them to the last validated hand-written readings",
 ]
 
 HOOK_COMMITS = ["0629e56", "a0e4ab0", "39d963f"]
@@ -40,7 +43,7 @@ PROPS = {
             # whole-system scenes through the public API with always-on monitors (panic hook, watchdog,
             # counting allocator, sample range): implementation-only (no twin) — these are tests that
             # support the theorems and hunt for failing inputs; a panic/hang on a `cb` op is a failure
-            {"name": "system", "quick": 250, "thorough": 6000, "impl_only": True, "fault_ops": ["cb", "rate"]},
+            {"name": "system", "quick": 250, "thorough": 6000, "impl_only": True, "fault_ops": ["cb", "rate", "play"]},
         ],
         "level_text": "Lean theorems: the renderer's final stage writes, for ANY bus value, samples in [-1,1], the mean of "
                       "left/right with one channel, exact zeros on channels beyond the second, exactly channels*frames samples, "
@@ -58,8 +61,12 @@ PROPS = {
                       "Known findings (finite arguments that hang / panic / emit NaN) are listed in known_findings.json",
         "assumptions": [
             "sample rate >= 1, 1..8 channels, internal buffer size >= 1 (backend configuration preconditions)",
-            "the system generator draws finite arguments from documented ranges plus boundary values; inputs of recorded "
-            "known findings are kept in corpus/system/ and excluded from random generation (each would cost a watchdog timeout)",
+            "the system generator draws finite arguments from documented ranges plus boundary values and, in 45% of its cases, "
+            "EXTREME finite values for every argument kind (+-1e300, f64::MAX, 2^53+2, 2^63, 2^64, subnormals, -0.0, Duration::MAX, "
+            "u64::MAX ticks) combined with loop regions, reverse playback and running clocks; not drawn: arguments that size an "
+            "allocation on the game thread (delay_time, capacities, buffer sizes) and extreme playback rates (recorded finding "
+            "C01-playback-rate-huge-hang: replayed from corpus/system/, each replay costs a watchdog timeout); watchdog 6 s per op "
+            "(slowest ordinary op ~20 ms; every extreme value that controls a trip count asks for > 10^10 iterations)",
         ],
     },
     "C06": {
@@ -135,7 +142,10 @@ PROPS = {
                    {"name": "clocktear", "quick": 1500, "thorough": 30000}],
         "level_text": "Lean theorems about the models of clock.rs / clock/handle.rs, of one renderer chunk (modulators, clocks in "
                       "self-referential storage, clock-gated sounds) and of the two-word time protocol: exact accumulation "
-                      "t0 + v*sum(dt) with fraction in [0,1) for every partition and every sufficient fuel, pause freezes, stop resets, "
+                      "t0 + v*sum(dt) with fraction in [0,1) for every partition and steps of ANY size (no fuel: the tick count is the "
+                      "floor form, equal to the old tick loop wherever it returned - C05_tick_count_eq_loop; Clock::update and every "
+                      "history of the clock system return for every speed - C05_update_never_hangs, C05_no_history_hangs; an infinite "
+                      "speed saturates - C05_infinite_speed_saturates), pause freezes, stop resets, "
                       "the speed parameter follows C06 with the clock's update as time base, a consumer of the mixer pass starts in "
                       "the first chunk at whose end the clock is ticking and at/after the target (for all histories), missing clock "
                       "cancels, modulators and earlier-keyed clocks see the clock one chunk behind, a speed tween on the clock's own "
@@ -146,7 +156,12 @@ PROPS = {
                       "atomic steps; time-read monotonicity is proved FALSE of the current code (known findings), the weaker statement "
                       "is C05_time_reads_partial; tie to the code = differential correspondence (three suites) + implementation oracles",
         "assumptions": [
-            "update steps dt >= 0; clock speed >= 0 ticks per second and not SecondsPerTick(0) (the real tick loop never ends there)",
+            "update steps dt >= 0; clock speed >= 0 ticks per second for the formula t0 + v*sum(dt), and not SecondsPerTick(0) there "
+            "(1/0 is 0 over the reals, +inf in IEEE arithmetic: the clock then saturates, C05_infinite_speed_saturates); termination "
+            "needs no hypothesis any more (C05_update_never_hangs, C05_no_history_hangs: the tick count is computed, not looped)",
+            "a speed tween whose start is infinite in the target's unit (0 ticks per second -> SecondsPerTick, SecondsPerTick(0) -> ticks "
+            "per second) is interpolated in the starting speed's unit since fix 724c1bb (before: NaN clock time); over the reals 1/0 = 0, "
+            "so C05_speed_interpolation idealises that point and C05_speed_interpolation_never_nan (every number type) covers it",
             "u64 tick counts modelled as unbounded naturals; resource capacities not exhausted; ids are creation indices",
             "atomics are SeqCst: interleavings of atomic steps (no weak-memory reorderings)",
             "the three command slots of a clock are last-write-wins cells read once per on_start_processing (property C07)",
@@ -241,7 +256,9 @@ PROPS = {
                    {"name": "static", "quick": 3000, "thorough": 40000},
                    {"name": "static_ood", "quick": 30, "thorough": 60}],
         "level_text": "Lean theorems about the models of transport.rs (over the naturals) and of static_sound/{data,sound,resampler}.rs "
-                      "+ frame.rs::interpolate_frame (over the reals): closed forms of the wrap loops and fuel independence; with a "
+                      "+ frame.rs::interpolate_frame (over the reals): the wrap into the loop region is constant-time modular arithmetic, "
+                      "equal to the loops it replaced wherever those return (C04_wrap_closed_form_eq_loop), for every position up to "
+                      "usize::MAX; with a "
                       "valid loop region no history of steps/seeks/loop changes faults, the play head stays inside the sound, wraps "
                       "le-1 -> ls and ls -> le-1, ends exactly at n / 0; at rate +-1 on a device at the sound's rate the j-th output "
                       "frame is exactly the source frame under the play head after j transport steps from the start position, for "
@@ -264,7 +281,10 @@ PROPS = {
         "assumptions": [
             "loop region in force valid (ls < le <= n) or absent for the invariants (kira drops empty / inverted regions; a region "
             "reaching past the end is followed bit-for-bit by the twin); no hypothesis on the slice, the start position or the direction",
-            "finite arguments; usize arithmetic modelled on unbounded naturals (positions near usize::MAX are outside the model)",
+            "finite arguments; usize arithmetic modelled on unbounded naturals: a play head AT usize::MAX (a saturated start position "
+            "or seek) stays there in kira (saturating_add) and is one further in the model - the twin prints min(position, usize::MAX), "
+            "exact without a loop region; every other position up to usize::MAX is inside the model and the twin (the wrap into the "
+            "loop region is modular arithmetic without fuel, C04_wrap_closed_form_eq_loop)",
             "rate-1 identity: volume 0 dB, centre panning, no fade, immediate start (the gain stage is covered by C19/C06 and the twin)",
         ],
     },
@@ -592,3 +612,47 @@ PROPS["C15"]["level_text"] += (
     "(C15_system_listener_lookup); in every reachable state (all scenes, all histories) the tracks are clean, so a "
     "top-level spatial track whose listener was dropped is exactly silent in the next callback "
     "(C15_system_reachable_dropped_listener_silent)")
+
+# --- gaps found by the second round of seeded changes ---
+# C18 ("streaming the same file yields the same frames … from any start position and after any sequence of seeks"):
+# the C09 side-by-side suite also serves C18 — its decoder is ahead of the playback (the wav suite renders every frame
+# as soon as it is decoded), so a seek_by measured from the decoder's position instead of the playback position shows,
+# and its long sounds (> 2 x 16384 frames) make the streaming sound's frame ring wrap. The C18 clause is stated directly
+# by the implementation-side oracle stream_frames_not_loaded_frames_at_position (neutral index-coded streams: the frames
+# heard are the loaded sound's frames at the positions played, where a seek_to lands on the frame nearest to its
+# argument and a seek_by on the frame nearest to the handle's reported position + its argument).
+PROPS["C18"]["suites"] += [{"name": "stream", "quick": 300, "thorough": 3000}]
+PROPS["C18"]["level_text"] += (
+    "; LONG STREAMS: WAV files of more than 2 x 16384 frames are streamed to their end (the streaming sound's frame ring wraps "
+    "twice) and compared frame by frame with the static load; suite stream (shared with C09): scripted decoders that run AHEAD of "
+    "the playback, long sounds, seek_to / seek_by at any lead up to the full ring, with the oracle "
+    "stream_frames_not_loaded_frames_at_position stating the clause on the real code")
+# C06 ("a tween on a sound's parameter … progresses in real time"): at the level of the sound the clause is about WHERE
+# StaticSound::process updates its volume / playback-rate / panning parameters (before the early returns for a start time
+# not reached and for a non-advancing playback state). Suite static (shared with C03 / C04) drives real static sounds
+# through pause / resume / delayed starts with parameter tweens set in every state; the oracle
+# static_param_tween_not_in_real_time compares each output frame of a unit DC sound with reference kira::Parameters that
+# received the same commands and the real time of EVERY callback.
+PROPS["C06"]["suites"] += [{"name": "static", "quick": 800, "thorough": 15000}]
+PROPS["C06"]["level_text"] += (
+    "; AT THE LEVEL OF THE SOUND (suite static, bit-exact twin of the whole static sound + oracle "
+    "static_param_tween_not_in_real_time): a static sound's volume / panning tweens advance with the real time of every "
+    "callback - playing, fading, paused, waiting to resume, waiting for a delayed start - so that after a resume the value is "
+    "where the closed form says")
+# C05 ("anything scheduled for a clock time … is cancelled if the clock no longer exists"): suite clocksys also pauses
+# silent sounds and empty sub-tracks and resumes them at a clock time (resume_at), dropping the clock's handle before /
+# after the audio thread has read the resume; the handles must report Stopped (sound, then unloaded) / Paused (track):
+# oracles missing_clock_cancels_resume, cancelled_sound_not_unloaded, resume_at_clock_time_fires, resume_waits_for_clock_time.
+PROPS["C05"]["level_text"] += (
+    "; suite clocksys also drives pause -> resume_at(ClockTime) -> clock dropped (before / after the resume is read) on real "
+    "sounds and sub-tracks through the public API: the twin (SoundCore / Psm life cycles fed with the system model's Info) "
+    "agrees on every handle state, and the oracle missing_clock_cancels_resume states the clause on the handles (sound: Stopped "
+    "and unloaded by the next callback; track: stays Paused and can be resumed)")
+# C08 (exact capacity accounting "for every resource kind"): suite life builds sub-tracks OF sub-tracks, plain and spatial,
+# at any depth, every one with its own sound capacity and sub-track capacity (distinct values, 0 and 1 included), and checks
+# the limit-iff-full / exact-count / reported-capacity clauses on each storage.
+PROPS["C08"]["level_text"] += (
+    "; suite life also builds sub-tracks of (plain and spatial) sub-tracks at any depth, each with its own, mostly different, "
+    "sound_capacity / sub_track_capacity (0 and 1 included): creation succeeds iff fewer than capacity are alive or awaiting "
+    "removal in THAT storage, num_sounds() / num_sub_tracks() / sound_capacity() / sub_track_capacity() report the right "
+    "numbers (oracles limit_iff_full, count_exact, count_le_capacity, capacity_reported)")
